@@ -69,14 +69,31 @@ def run(chk, repo: Repo):
     exact_shortcuts(chk, repo, "C05-R7", only_methods=True)
 
 
+def _generator_aliases(fn):
+    """locals bound by `g = np.random if rng is None else rng` (or the mirrored form): the global stream exactly when no generator is given"""
+    good, bad = set(), []
+    for s in walk_no_nested(fn):
+        if isinstance(s, ast.Assign) and len(s.targets) == 1 and isinstance(s.targets[0], ast.Name) and isinstance(s.value, ast.IfExp):
+            t, a, b = unparse(s.value.test), unparse(s.value.body), unparse(s.value.orelse)
+            if "np.random" in (a, b) or "numpy.random" in (a, b):
+                if (t in RNG_NONE_T and a in ("np.random", "numpy.random") and b == "rng") or (t in RNG_NONE_F and a == "rng" and b in ("np.random", "numpy.random")):
+                    good.add(s.targets[0].id)
+                else:
+                    bad.append(s)
+    return good, bad
+
+
 def _draw_sites(fn):
-    """(call, kind) kind in global | rng | scipy | forward"""
+    """(call, kind) kind in global | rng | scipy | forward | alias"""
     out = []
+    aliases, _ = _generator_aliases(fn)
     for c in walk_no_nested(fn):
         if not isinstance(c, ast.Call):
             continue
         cn = call_name(c) or ""
-        if cn.startswith(("np.random.", "numpy.random.")) and cn.split(".")[-1] not in ("RandomState", "default_rng", "seed"):
+        if "." in cn and cn.split(".")[0] in aliases:
+            out.append((c, "alias"))
+        elif cn.startswith(("np.random.", "numpy.random.")) and cn.split(".")[-1] not in ("RandomState", "default_rng", "seed"):
             out.append((c, "global"))
         elif cn.startswith("rng."):
             out.append((c, "rng"))
@@ -109,6 +126,8 @@ def _r1(chk, repo, samplers):
             chk.note(f"C05-R1 {ci.name}: draws only through the user's callable (outside the rule)")
             continue
         problems = []
+        for bad in _generator_aliases(fn)[1]:
+            problems.append(f"line {bad.lineno}: `{unparse(bad)[:70]}` selects the global generator under a condition other than `rng is None`")
         # accepted rebinding idiom: `if rng == None: rng = np.random`
         rebinds = [n for n in g.nodes if isinstance(n.ast, ast.Assign) and path_of(n.ast.targets[0]) == "rng"]
         rebound_default = False
@@ -195,26 +214,51 @@ SOLVERS = {"spa.linalg.spsolve", "splinalg.spsolve", "splinalg.solve", "splinalg
 
 
 def _r3(chk, repo):
-    gs = repo.func("cuqi/distribution/_gaussian.py:Gaussian._sample")
-    g = CFG(gs)
+    from .common import canon_fn, pmatch
+    from ..flow import Expander
+    ga_ci = repo.cls("cuqi/distribution/_gaussian.py:Gaussian")
+    gs_src = repo.func("cuqi/distribution/_gaussian.py:Gaussian._sample")
+    gs = canon_fn(repo, ga_ci, gs_src, 4)        # structural normal form, local aliases such as `S = self.sqrtprec` substituted
+    ex = Expander(gs)
+    g = ex.cfg
     problems = []
-    # every assignment to the perturbation is a solve with self.sqrtprec applied to the draw e
-    asg = [n for n in g.nodes if isinstance(n.ast, ast.Assign) and path_of(n.ast.targets[0]) == "perturbation"]
+    rets = g.returns()
+    # the sample is mean[:, None] + P ; every definition of P that reaches it is a linear solve of self.sqrtprec against the draw
+    b = None
+    if len(rets) == 1:
+        rv = ex.expand(rets[0].ast.value, rets[0], stop=frozenset())
+        b = pmatch("self.mean[:,None]+$P", rets[0].ast.value) or pmatch("$P+self.mean[:,None]", rets[0].ast.value)
+        if b is None:
+            sdefs = ex.defs(rets[0], path_of(rets[0].ast.value) or "?")
+            for dn, rhs in sdefs:
+                if rhs is not None:
+                    b = b or pmatch("self.mean[:,None]+$P", rhs) or pmatch("$P+self.mean[:,None]", rhs)
+                    at = dn
+        else:
+            at = rets[0]
+    if b is None:
+        raise AnchorError("Gaussian._sample: `mean[:, None] + perturbation` not found")
+    P = b["P"]
+    asg = [n for n in g.nodes if n.kind == "stmt" and isinstance(n.ast, ast.Assign) and path_of(n.ast.targets[0]) == P]
     if len(asg) < 3:
         raise AnchorError("Gaussian._sample: perturbation assignments not found")
+    nsolve = 0
     for n in asg:
         v = n.ast.value
+        if isinstance(v, ast.Subscript) and path_of(v.value) == P:
+            continue                      # P = P[:, None]: re-shaping of the solve result
         core = v.value if isinstance(v, ast.Subscript) else v
-        if not (isinstance(core, ast.Call) and (call_name(core) in SOLVERS) and len(core.args) >= 2
-                and unparse(core.args[0]) == "self.sqrtprec" and unparse(core.args[1]) == "e"):
-            problems.append(f"line {n.lineno}: perturbation `{unparse(v)[:70]}` is not a linear solve with self.sqrtprec applied to the draw e")
-    rets = g.returns()
-    if not (len(rets) == 1 and unparse(g.nodes[[p for p, _ in g.pred[rets[0].id]][0]].ast if g.pred[rets[0].id] else rets[0].ast)):
-        pass
-    sdef = [n for n in g.nodes if isinstance(n.ast, ast.Assign) and path_of(n.ast.targets[0]) == "s"]
-    if not (len(sdef) == 1 and unparse(sdef[0].ast.value).replace(" ", "") == "self.mean[:,None]+perturbation"):
-        problems.append("sample is not mean[:, None] + perturbation")
-    chk.add("C05-R3", "cuqi/distribution/_gaussian.py:Gaussian._sample/solves", not problems, site(repo, gs),
+        draw_ok = False
+        if isinstance(core, ast.Call) and (call_name(core) in SOLVERS) and len(core.args) >= 2 and unparse(core.args[0]) == "self.sqrtprec":
+            rhs_name = path_of(core.args[1])
+            ds = ex.defs(n, rhs_name) if rhs_name else []
+            dtx = [unparse(ex.expand(r, d)) for d, r in ds if r is not None]
+            draw_ok = bool(dtx) and len(dtx) == len(ds) and all(("randn(" in t or "standard_normal(" in t) for t in dtx)
+        if not draw_ok:
+            problems.append(f"line {n.lineno}: perturbation `{unparse(v)[:70]}` is not a linear solve with self.sqrtprec applied to the standard-normal draw")
+        else:
+            nsolve += 1
+    chk.add("C05-R3", "cuqi/distribution/_gaussian.py:Gaussian._sample/solves", not problems and nsolve >= 3, site(repo, gs_src),
             f"{len(asg)} branches, each a solve of sqrtprec against the standard-normal draw", "; ".join(problems), gs)
     # triangular orientation (contradiction rule) in the whole distribution package
     ntri = 0
@@ -251,9 +295,11 @@ def _r3(chk, repo):
                             f"(SciPy then reads only the other triangle)", c)
     if ntri < 1:
         raise AnchorError("no solve_triangular call found (Gaussian._sample expected)")
+    _gmrf_factor_order(chk, repo)
     # spsolve with a single right-hand side inside _sample functions
     for spec in ("cuqi/distribution/_gaussian.py:Gaussian._sample", "cuqi/distribution/_gmrf.py:GMRF._sample"):
-        fn = repo.func(spec)
+        fn_src = repo.func(spec)
+        fn = canon_fn(repo, repo.cls(spec.rsplit(".", 1)[0]), fn_src, 4)
         cg = CFG(fn)
         problems = []
         outer = []
@@ -269,37 +315,121 @@ def _r3(chk, repo):
             guarded = any(unparse(t.ast).replace(" ", "") in ("N==1", "(N==1)") for t, lab in cg.guards_of(n))
             par = getattr(c, "_parent", None)
             shaped = (isinstance(par, ast.Attribute) and par.attr == "reshape") or isinstance(par, ast.Subscript)
+            if not (guarded or shaped) and isinstance(par, ast.Assign) and len(par.targets) == 1 and path_of(par.targets[0]):
+                # X = spsolve(...) ; if N == 1: X = X[:, None]   (re-shaped afterwards, before it is used)
+                X = path_of(par.targets[0])
+                for n2 in cg.nodes:
+                    a2 = n2.ast
+                    if n2.kind == "stmt" and isinstance(a2, ast.Assign) and path_of(a2.targets[0]) == X and cg.dominates(n, n2) and n2 is not n:
+                        v2 = a2.value
+                        resh = (isinstance(v2, ast.Subscript) and path_of(v2.value) == X) or \
+                               (isinstance(v2, ast.Call) and isinstance(v2.func, ast.Attribute) and v2.func.attr == "reshape" and path_of(v2.func.value) == X)
+                        if resh and any(unparse(t.ast).replace(" ", "") in ("N==1", "(N==1)") and lab == "T" for t, lab in cg.guards_of(n2)):
+                            shaped = True
             if not (guarded or shaped):
                 problems.append(f"line {c.lineno}: spsolve(...) result is combined with mean[:, None] without handling a single "
                                 f"right-hand side (SciPy returns a 1-D array, which broadcasts to dim x dim)")
-        chk.add("C05-R3", f"{spec}/spsolve-single-rhs", not problems, site(repo, fn), f"{len(outer)} spsolve result(s) special-cased for N == 1 or reshaped",
+        chk.add("C05-R3", f"{spec}/spsolve-single-rhs", not problems, site(repo, fn_src), f"{len(outer)} spsolve result(s) special-cased for N == 1 or reshaped",
                 "; ".join(problems), fn)
 
 
+def _gmrf_factor_order(chk, repo):
+    """GMRF stores one triangular factor `_chol` of its precision structure matrix A. Its orientation is read from where it is assigned
+    (sparse_cholesky returns the UPPER factor U with A = U.T @ U, so `sparse_cholesky(A).T` is the lower factor L with A = L @ L.T).
+    A draw with covariance A^-1 is F^-1 xi with F.T @ F = A, i.e. F = L.T; a solve of A z = b is L y = b followed by L.T z = y.
+    Both uses are compared with the orientation established at the assignment."""
+    from .common import canon_fn
+    from ..pattern import norm as pn
+    gm = repo.cls("cuqi/distribution/_gmrf.py:GMRF")
+    init = repo.method(gm, "__init__")[1]
+    defs = [s for s in ast.walk(init) if isinstance(s, ast.Assign) and path_of(s.targets[0]) == "self._chol"]
+    sc = repo.func("cuqi/utilities/_utilities.py:sparse_cholesky")
+    upper = any(isinstance(r, ast.Return) and isinstance(r.value, ast.Attribute) and r.value.attr == "T" for r in ast.walk(sc))
+    if not defs or not upper:
+        raise AnchorError("GMRF: assignment of the Cholesky factor / orientation of sparse_cholesky not recognised")
+    roles = set()
+    for d in defs:
+        v = d.value
+        if isinstance(v, ast.Attribute) and v.attr == "T" and isinstance(v.value, ast.Call) and call_name(v.value) == "sparse_cholesky":
+            roles.add("L")
+        elif isinstance(v, ast.Call) and call_name(v) == "sparse_cholesky":
+            roles.add("U")
+        else:
+            raise AnchorError(f"GMRF: `{unparse(d)[:60]}` - orientation of the factor not recognised")
+    if len(roles) != 1:
+        chk.fail("C05-R3", f"{gm.qual}.__init__/factor-orientation", site(repo, defs[0]), "the Cholesky factor is stored with different orientations on different branches", defs[0])
+        return
+    role = roles.pop()
+    LT, Lw = ("self._chol.T", "self._chol") if role == "L" else ("self._chol", "self._chol.T")     # (text of L^T, text of L)
+    fn_src = repo.method(gm, "_sample")[1]
+    fn = canon_fn(repo, gm, fn_src, 4)
+    problems, n = [], 0
+    for c in ast.walk(fn):
+        if not (isinstance(c, ast.Call) and (call_name(c) or "").endswith("spsolve") and len(c.args) == 2):
+            continue
+        par = getattr(c, "_parent", None)
+        if isinstance(par, ast.Call) and (call_name(par) or "").endswith("spsolve") and par.args[1] is c:
+            continue                       # inner solve, judged with its outer solve
+        F = pn(c.args[0])
+        rhs = c.args[1]
+        if isinstance(rhs, ast.Call) and (call_name(rhs) or "").endswith("spsolve") and len(rhs.args) == 2:
+            n += 1
+            inner = pn(rhs.args[0])
+            if not (inner == Lw and F == LT):
+                problems.append(f"line {c.lineno}: A z = b is solved with `{inner}` first and `{F}` second; with A = L L^T (L = `{Lw}`) it is L y = b, then L^T z = y: "
+                                f"the other order solves (L^T L) z = b, a different matrix")
+        elif "_chol" in F:
+            n += 1
+            if F != LT:
+                problems.append(f"line {c.lineno}: a draw `spsolve({F}, xi)` has covariance ({F}.T {F})^-1; the precision structure is L L^T, so the factor must be `{LT}`")
+    if n < 2:
+        raise AnchorError("GMRF._sample: solves with the Cholesky factor not found")
+    chk.add("C05-R3", f"{gm.qual}._sample/factor-order", not problems, site(repo, fn_src), f"{n} solve(s) use the stored factor (role {role}) in the orientation of A = L L^T",
+            "; ".join(problems), fn_src)
+
+
 def _r4(chk, repo, dist):
-    fn = repo.method(dist, "sample")[1]
-    g = CFG(fn)
-    call = [n for n in g.nodes if n.ast is not None and any(isinstance(c, ast.Call) and call_name(c) == "self._sample" for c in ast.walk(n.ast))]
+    from .common import canon_fn, guarded
+    from ..flow import Expander
+    from ..pattern import norm as pn
+    fn_src = repo.method(dist, "sample")[1]
+    fn = canon_fn(repo, dist, fn_src, 2)          # structural normal form, private helpers (e.g. a wrapping helper) inlined
+    ex = Expander(fn)
+    g = ex.cfg
+    call = [n for n in g.nodes if n.ast is not None and n.kind in ("stmt", "return") and any(isinstance(c, ast.Call) and call_name(c) == "self._sample" for c in ast.walk(n.ast))]
     if len(call) != 1:
         raise AnchorError("Distribution.sample: expected one call of self._sample")
-    refuse = any(unparse(t.ast) == "self.is_cond" and lab == "F" for t, lab in g.guards_of(call[0]))
-    t_true = [t for t in g.tests() if unparse(t.ast) == "self.is_cond"]
-    raises = bool(t_true) and all(g.nodes[m].kind == "raisestmt" for m, lab in g.succ[t_true[0].id] if lab == "T")
-    chk.add("C05-R4", f"{dist.qual}.sample/refuse-conditional", refuse and raises, site(repo, fn), "raises when is_cond before any draw",
-            "a conditional distribution can reach _sample (missing conditioning variables are not refused)", fn)
+    refuse = guarded(g, call[0], "self.is_cond", "F") or guarded(g, call[0], "not self.is_cond", "T")
+    chk.add("C05-R4", f"{dist.qual}.sample/refuse-conditional", refuse, site(repo, fn_src), "raises when is_cond before any draw",
+            "a conditional distribution can reach _sample (missing conditioning variables are not refused)", fn_src)
     c = [x for x in ast.walk(call[0].ast) if isinstance(x, ast.Call) and call_name(x) == "self._sample"][0]
-    ok = unparse(c).replace(" ", "") == "self._sample(N,*args,**kwargs)"
-    chk.add("C05-R4", f"{dist.qual}.sample/forwarding", ok, site(repo, c), "forwards N and the caller's rng", f"_sample is called as `{unparse(c)}`", c)
-    wraps = [(n, unparse(n.ast.value).replace(" ", "")) for n in g.nodes if isinstance(n.ast, ast.Assign) and path_of(n.ast.targets[0]) == "s"
-             and isinstance(n.ast.value, ast.Call) and call_name(n.ast.value) in ("CUQIarray", "Samples")]
-    one = [n for n, t in wraps if t == "CUQIarray(s,geometry=self.geometry)"]
-    many = [n for n, t in wraps if t == "Samples(s,self.geometry)"]
-    ok = len(one) == 1 and len(many) == 1 and any(unparse(t.ast).replace(" ", "") == "N==1" and lab == "T" for t, lab in g.guards_of(one[0])) \
-        and any(unparse(t.ast).replace(" ", "") == "N==1" and lab == "F" for t, lab in g.guards_of(many[0]))
-    rets = g.returns()
-    ok = ok and len(rets) == 1 and unparse(rets[0].ast.value) == "s"
-    chk.add("C05-R4", f"{dist.qual}.sample/wrapping", ok, site(repo, fn), "N==1 -> CUQIarray(s, geometry=self.geometry); else Samples(s, self.geometry)",
-            "draws are not wrapped with the distribution's geometry as array (one draw) / sample collection (several)", fn)
+    ok = pn(c) == pn("self._sample(N,*args,**kwargs)")
+    chk.add("C05-R4", f"{dist.qual}.sample/forwarding", ok, site(repo, fn_src), "forwards N and the caller's rng", f"_sample is called as `{unparse(c)}`", c)
+    # every returned value is CUQIarray(., geometry=self.geometry) for one draw and Samples(., self.geometry) otherwise
+    problems, kinds = [], set()
+    for r in g.returns():
+        cands = []
+        if isinstance(r.ast.value, ast.Call):
+            cands.append((r, r.ast.value))
+        elif path_of(r.ast.value):
+            for dn, rhs in ex.defs(r, path_of(r.ast.value)):
+                cands.append((dn, rhs))
+        else:
+            problems.append(f"line {r.lineno}: returns `{unparse(r.ast.value)[:40]}`")
+        for dn, rhs in cands:
+            cn = call_name(rhs) if isinstance(rhs, ast.Call) else None
+            one = guarded(g, dn, "N==1", "T") or guarded(g, dn, "N!=1", "F") or (dn is not r and (guarded(g, r, "N==1", "T") or guarded(g, r, "N!=1", "F")))
+            many = guarded(g, dn, "N==1", "F") or guarded(g, dn, "N!=1", "T") or (dn is not r and (guarded(g, r, "N==1", "F") or guarded(g, r, "N!=1", "T")))
+            if cn == "CUQIarray" and one and any(k.arg == "geometry" and pn(k.value) == "self.geometry" for k in rhs.keywords):
+                kinds.add("one")
+            elif cn == "Samples" and many and ((len(rhs.args) >= 2 and pn(rhs.args[1]) == "self.geometry") or any(k.arg == "geometry" and pn(k.value) == "self.geometry" for k in rhs.keywords)):
+                kinds.add("many")
+            else:
+                problems.append(f"line {getattr(dn, 'lineno', 0)}: result `{unparse(rhs)[:60] if rhs is not None else '?'}` is not CUQIarray(., geometry=self.geometry) "
+                                f"for one draw / Samples(., self.geometry) for several")
+    ok = not problems and kinds == {"one", "many"}
+    chk.add("C05-R4", f"{dist.qual}.sample/wrapping", ok, site(repo, fn_src), "N==1 -> CUQIarray(s, geometry=self.geometry); else Samples(s, self.geometry)",
+            "draws are not wrapped with the distribution's geometry as array (one draw) / sample collection (several): " + "; ".join(problems), fn_src)
     over = [c.qual for c in repo.subclasses(dist) if "sample" in c.methods]
     chk.add("C05-R4", f"{dist.qual}.sample/not-overridden", not over, "", "no subclass overrides sample()", f"sample() overridden in {over}")
 
